@@ -41,7 +41,14 @@ def cases(draw):
     sug = lambda d: gens.draw_sugared(draw, CFG, draw(st.integers(0, d)), pool, True, defs)
     if rule == 'mp':
         a = sug(2); b = sug(2)
-        fam = draw(st.sampled_from(['same', 'resugared', 'nearmiss', 'unrelated', 'nonimp']))
+        fam = draw(st.sampled_from(['same', 'resugared', 'nearmiss', 'unrelated', 'nonimp', 'instantiated', 'instantiated']))
+        if fam == 'instantiated':
+            # antecedent and minor premise are a partial notation application and the same object instantiated further
+            body = sug(2)
+            keys = sorted(draw(st.sets(st.sampled_from(CFG.ids), min_size=1, max_size=2)))
+            part = ('inst', body, tuple((k, sug(1)) for k in keys))
+            more = [(k, sug(1)) for k in sorted(draw(st.sets(st.sampled_from(CFG.ids), min_size=1, max_size=2)))]
+            return {'rule': rule, 'level': level, 'fam': fam, 'part': part, 'more': more, 'b': b, 'partial_is_antecedent': draw(st.booleans())}
         if fam == 'same': left = ('i', a, b)
         elif fam == 'resugared': left = ('i', mixed(draw, a, defs), b)
         elif fam == 'nearmiss': left = ('i', mutate(draw, a), b)
@@ -63,8 +70,8 @@ def cases(draw):
 def case_json(c):
     out = {}
     for k, v in c.items():
-        if k in ('left', 'right', 'prem', 'conc'): out[k] = gens.sugared_to_json(v)
-        elif k == 'delta': out[k] = [[i, gens.sugared_to_json(a)] for i, a in v]
+        if k in ('left', 'right', 'prem', 'conc', 'part', 'b'): out[k] = gens.sugared_to_json(v)
+        elif k in ('delta', 'more'): out[k] = [[i, gens.sugared_to_json(a)] for i, a in v]
         else: out[k] = v
     return out
 
@@ -73,10 +80,20 @@ def case_from_json(j):
     _, by_label, _ = notations.registry()
     out = {}
     for k, v in j.items():
-        if k in ('left', 'right', 'prem', 'conc'): out[k] = gens.sugared_from_json(v, by_label)
-        elif k == 'delta': out[k] = [(i, gens.sugared_from_json(a, by_label)) for i, a in v]
+        if k in ('left', 'right', 'prem', 'conc', 'part', 'b'): out[k] = gens.sugared_from_json(v, by_label)
+        elif k in ('delta', 'more'): out[k] = [(i, gens.sugared_from_json(a, by_label)) for i, a in v]
         else: out[k] = v
     return out
+
+
+def instantiated_pair(c):
+    """(left premise conclusion, right premise conclusion) sharing the notation body object, as Instantiate.instantiate produces"""
+    import proof_generation.pattern as P
+
+    part = gens.build_repo(c['part'])
+    fuller = part.instantiate({k: gens.build_repo(v) for k, v in c['more']})
+    ante, minor = (part, fuller) if c['partial_is_antecedent'] else (fuller, part)
+    return P.Implies(ante, gens.build_repo(c['b'])), minor
 
 
 def call_rule(c):
@@ -95,7 +112,10 @@ def call_rule(c):
 
     try:
         if rule == 'mp':
-            left = gens.build_repo(c['left']); right = gens.build_repo(c['right'])
+            if c['fam'] == 'instantiated':
+                left, right = instantiated_pair(c)
+            else:
+                left = gens.build_repo(c['left']); right = gens.build_repo(c['right'])
             if level == 'basic':
                 return ('ok', BasicInterpreter(ExecutionPhase.Proof).modus_ponens(Proved(left), Proved(right)).conclusion)
             if level == 'stateful':
@@ -144,7 +164,13 @@ def body(c, stats: Stats):
     _, _, defs = _pool()
     rule = c['rule']
     ex = lambda t: gens.expand_sugared(t, defs)
-    if rule == 'mp':
+    if rule == 'mp' and c['fam'] == 'instantiated':
+        l_obj, r_obj = instantiated_pair(c)
+        el, er = R.from_repo(l_obj), R.from_repo(r_obj)
+        applicable = el[1] == er
+        expected = el[2] if applicable else None
+        desc = 'modus_ponens(%s ; %s)' % (R.show(el), R.show(er))
+    elif rule == 'mp':
         el, er = ex(c['left']), ex(c['right'])
         applicable = el[0] == 'i' and el[1] == er
         expected = el[2] if applicable else None
